@@ -121,6 +121,7 @@ def run(ctx):
 
     # ---------- R3: CelsData.data is indexed [frame][layer]
     IDX = ('std::ops::Index::index', 'std::ops::IndexMut::index_mut')
+    GET = ('core::slice::get', 'core::slice::get_mut', 'std::vec::Vec::get', 'std::vec::Vec::get_mut')      # checked access: same coordinate rule
     TABLE = {
         'asefile::cel::CelsData::cel': dict(frame=[(2, ['frame'])], layer=[(2, ['layer'])], rows=1, cols=1),
         'asefile::cel::CelsData::cel_mut': dict(frame=[(2, ['frame'])], layer=[(2, ['layer'])], rows=1, cols=1),
@@ -141,7 +142,7 @@ def run(ctx):
             continue
         rows = cols = 0
         for c in q.calls(b):
-            if c.callee not in IDX:
+            if c.callee not in IDX and c.callee not in GET:
                 continue
             at = q.arg_terms(c)
             base, idx = at[0], strip_casts(at[1])
